@@ -56,7 +56,8 @@ class NZAnalysis:
             return self.grade(e.operand, st)
         if isinstance(e, ast.Call):
             fn = src(e.func)
-            if fn in ('float', 'abs', 'positive', 'bool') and len(e.args) == 1:
+            fn = st.get('falias', {}).get(fn, fn)
+            if fn in ('float', 'abs', 'bool') and len(e.args) == 1:
                 return self.grade(e.args[0], st)
             if isinstance(e.func, ast.Attribute) and e.func.attr == 'pop' and self.is_dict(e.func.value, st) and len(e.args) == 1:
                 return NZ
@@ -198,6 +199,10 @@ class NZAnalysis:
         if isinstance(a, ast.Assign):
             self._walrus(a.value, st)
             v = a.value
+            if isinstance(v, ast.Name) and v.id in ('abs', 'float', 'bool'):
+                for t in a.targets:
+                    if isinstance(t, ast.Name):
+                        st.setdefault('falias', {})[t.id] = v.id
             isd = self.is_dict(v, st) or isinstance(v, (ast.Dict, ast.DictComp))
             # value expressions that become sparse storage
             for t in a.targets:
@@ -244,7 +249,7 @@ class NZAnalysis:
 
     def run(self):
         cfg = self.cfg
-        init = {'nz': {}, 'dicts': set(self.extra)}
+        init = {'nz': {}, 'dicts': set(self.extra), 'falias': {}}
         IN = {cfg.entry.id: init}
         work = [cfg.entry]
         OUT = {}
@@ -256,13 +261,13 @@ class NZAnalysis:
             st = IN.get(nd.id)
             if st is None:
                 continue
-            cur = {'nz': dict(st['nz']), 'dicts': set(st['dicts'])}
+            cur = {'nz': dict(st['nz']), 'dicts': set(st['dicts']), 'falias': dict(st.get('falias', {}))}
             saved_sites = self.sites
             self.sites = []
             self.transfer(nd, cur)
             self.sites = saved_sites
             for s, label in nd.succ:
-                out = {'nz': dict(cur['nz']), 'dicts': set(cur['dicts'])}
+                out = {'nz': dict(cur['nz']), 'dicts': set(cur['dicts']), 'falias': dict(cur.get('falias', {}))}
                 if nd.kind == 'test' and label in (True, False) and not isinstance(nd.ast, ast.Match):
                     self._assume(nd.ast.test, label, out)
                 old = IN.get(s.id)
@@ -276,7 +281,7 @@ class NZAnalysis:
                             nz[k] = worst(old['nz'][k], out['nz'][k])
                     dicts = old['dicts'] & out['dicts']
                     if nz != old['nz'] or dicts != old['dicts']:
-                        IN[s.id] = {'nz': nz, 'dicts': dicts}
+                        IN[s.id] = {'nz': nz, 'dicts': dicts, 'falias': dict(old.get('falias', {}))}
                         work.append(s)
         # final pass: collect sites with the fixpoint states
         self.sites = []
@@ -284,7 +289,7 @@ class NZAnalysis:
             st = IN.get(nd.id)
             if st is None:
                 continue
-            cur = {'nz': dict(st['nz']), 'dicts': set(st['dicts'])}
+            cur = {'nz': dict(st['nz']), 'dicts': set(st['dicts']), 'falias': dict(st.get('falias', {}))}
             self.transfer(nd, cur)
             # comprehensions / displays inside test headers etc. are rare; handled in transfer for stmts
         return self.sites
